@@ -326,7 +326,7 @@ func (tr *Tracer) equalKnown(st *state, x, y *Sym) (bool, bool) {
 			}
 			return constant.Compare(x.Const, token.EQL, y.Const), true
 		}
-		if y.Const == nil && nonNilSym(x) {
+		if y.Const == nil && (nonNilSym(x) || tr.c.nonNilGlobalContent(x)) {
 			return false, true
 		}
 		if c, ok := st.eqc[x.Key()]; ok {
